@@ -3,6 +3,7 @@ package valid
 import (
 	"errors"
 	"reflect"
+	"sort"
 	"strings"
 )
 
@@ -77,9 +78,11 @@ func (v *VMap) validate(prefix string, tv reflect.Value) *VMap {
 		return v
 	}
 
+	exists := make(map[string]struct{}, tv.Len()) // 记录 map 中存在的 key
 	mapIter := tv.MapRange()
 	for mapIter.Next() {
 		key := mapIter.Key().String()
+		exists[key] = struct{}{}
 		val := mapIter.Value()
 		validNames := v.ruleObj.Get(key)
 		if validNames == "" {
@@ -135,7 +138,32 @@ func (v *VMap) validate(prefix string, tv reflect.Value) *VMap {
 			fn(v.errBuf, validName, "", v.getKey(prefix, key), val)
 		}
 	}
+	v.requiredMissing(prefix, exists)
 	return v
+}
+
+// requiredMissing 规则里设置了 required 但 map 中不存在的 key 也为必填错误
+func (v *VMap) requiredMissing(prefix string, exists map[string]struct{}) {
+	keys := make([]string, 0, len(v.ruleObj))
+	for key := range v.ruleObj {
+		if _, ok := exists[key]; !ok && key != "" {
+			keys = append(keys, key)
+		}
+	}
+	sort.Strings(keys) // 保证错误信息的顺序固定
+	for _, key := range keys {
+		for _, validName := range ValidNamesSplit(v.ruleObj.Get(key)) {
+			validKey, _, cusMsg := ParseValidNameKV(validName)
+			if validKey != Required {
+				continue
+			}
+			if cusMsg != "" {
+				v.errBuf.WriteString(GetJoinValidErrStr("", v.getKey(prefix, key), "", cusMsg))
+				continue
+			}
+			v.errBuf.WriteString(GetJoinValidErrStr("", v.getKey(prefix, key), "", ExplainEn, "it is", Required))
+		}
+	}
 }
 
 // getKey 获取 key
